@@ -317,6 +317,14 @@ class Book:
         self.next_key = len(case['lines'])
         self.acta_saved = None
         self.n = 0
+        # physical layout of the unedited file: first list index of every logical line that is written
+        self.starts = []
+        at = 0
+        for k, l in enumerate(case['lines']):
+            if k in self.toks:
+                self.starts.append(at)
+            at += len(l['phys'])
+        self.nphys = at
 
     def pick(self, pos):
         if not self.atoms:
@@ -340,6 +348,12 @@ class Book:
         text = f'REM c04 inserted {self.n}'
         if kind == 'add_line0':
             return [dict(k='addLine', i=0, t=text.split())], [dict(k='insertAt', p=1, t=text.split())], lambda s, r: s.add_line(0, text)
+        if kind == 'add_line_at':
+            # a bare list index is only meaningful to the harness while the list is still the unedited file
+            if self.n != 1:
+                return None
+            p = sum(1 for st in self.starts if st <= o['i'])
+            return [dict(k='addLine', i=o['i'], t=text.split())], [dict(k='insertAt', p=p, t=text.split())], lambda s, r: s.add_line(o['i'], text)
         if kind == 'add_line_sfac':
             return (*self.after(R['sfac'], text.split()), lambda s, r: s.add_line(s.index_of(s.sfac_table), text))
         if kind == 'add_line_unit':
@@ -627,7 +641,7 @@ def evaluate(ctx, cases, stream=None):
 
 def run(ctx):
     ctx.rule = ('by-construction files with 1-3 SFAC lines, 1-3 FVAR lines (<= 7 free variables), 0-2 SYMM, ACTA/PLAN/L.S./WGHT, restraints, '
-                '3-7 iso/aniso atoms in PART/RESI context, WGHT + Q-peaks after END; histories over 29 edit instances (15 kinds): '
+                '3-7 iso/aniso atoms in PART/RESI context, WGHT + Q-peaks after END; histories over 29 edit instances (15 kinds) + add_line at every list index of the unedited file: '
                 'bounded-exhaustive to depth 2, 3 on a 15-instance alphabet (quick) / 3 on all, 4 on a 10-instance alphabet (thorough) and random walks to depth 50, file written '
                 'and lexed after every edit; distinct by (file text, history); non-trivial = the scheme with absolute delete_on_write '
                 'indices would write something else than the specification somewhere in the history (insertion/deletion in front '
@@ -651,11 +665,21 @@ def run(ctx):
         for al, d in enum:
             for h in itertools.product(al, repeat=d):
                 cases.append(dict(f, hist=[dict(o) for o in h]))
+        # add_line at EVERY list index of the unedited file (also inside/behind the SFAC and FVAR regions,
+        # on continuation lines and past the end), alone and followed by every edit of the small alphabet
+        nphys = sum(len(l['phys']) for l in f['lines'])
+        for k in range(nphys + 2):
+            cases.append(dict(f, hist=[dict(op='add_line_at', i=k)]))
+            for o in alphabet(f, small=True) if (i == 0 or thorough) else []:
+                cases.append(dict(f, hist=[dict(op='add_line_at', i=k), dict(o)]))
     ctx.extra['exhaustive_histories'] = len(cases)
     # 2. random walks on random rich files
     for _ in range(ctx.budget(120, 1500)):
         f = make_file(rng)
         depth = rng.choice([1, 2, 3, 5, 8, 13, 20, 35, 50])
-        cases.append(dict(f, hist=[rand_op(rng, f) for _ in range(depth)]))
+        hist = [rand_op(rng, f) for _ in range(depth)]
+        if rng.random() < 0.3:
+            hist[0] = dict(op='add_line_at', i=rng.randrange(sum(len(l['phys']) for l in f['lines']) + 2))
+        cases.append(dict(f, hist=hist))
     for i in range(0, len(cases), 2000):
         evaluate(ctx, cases[i:i + 2000])
